@@ -52,6 +52,76 @@ def run : Conn → List Op → Option (List Issued × Conn)
       | none => none
       | some (is, c'') => some (i :: is, c'')
 
+
+/-! ### Suspended sends
+
+`send_message` chooses the serial and marshals the header; the caller may look at it (`SendMessageContext::serial`),
+suspend the send (`into_progress`, before or after some bytes were written), allocate serials explicitly in the
+meantime, and later `resume` and finish it — or give the message up. The API contract allows one suspended send at a
+time and no other send while it is suspended. -/
+
+inductive Op2
+  | base (op : Op)
+  /-- `send_message(msg)`, `ctx.serial()` reported to the caller, `ctx.into_progress()` -/
+  | begin (preset : Option Nat)
+  /-- `SendMessageContext::resume(conn, msg, progress).write_all()`: the message reaches the wire -/
+  | resume
+  /-- the suspended send is given up (`force_finish` / the progress is dropped) -/
+  | abandon
+  deriving Repr
+
+structure Conn2 where
+  conn : Conn
+  /-- `SendMessageState.serial` of the suspended send, if any -/
+  pending : Option Nat
+  deriving Repr, DecidableEq
+
+def Conn2.init : Conn2 := ⟨Conn.init, none⟩
+
+inductive Ev
+  /-- a serial handed to the caller -/
+  | issued (i : Issued)
+  /-- the serial field of a header that reached the wire -/
+  | wire (serial : Nat)
+  deriving Repr, DecidableEq
+
+/-- `none` = the overflow panic, or a call sequence the API contract forbids (a send or a second suspension while a
+    send is suspended; resume / abandon with nothing suspended) -/
+def step2 (c : Conn2) : Op2 → Option (List Ev × Conn2)
+  | .base .alloc => (allocSerial c.conn).map (fun (s, k) => ([.issued ⟨s, true⟩], { c with conn := k }))
+  | .base (.send p) =>
+    match c.pending with
+    | some _ => none
+    | none => (sendSerial c.conn p).map (fun (s, k) => ([.issued ⟨s, p.isNone⟩, .wire s], { c with conn := k }))
+  | .begin p =>
+    match c.pending with
+    | some _ => none
+    | none => (sendSerial c.conn p).map (fun (s, k) => ([.issued ⟨s, p.isNone⟩], ⟨k, some s⟩))
+  | .resume =>
+    match c.pending with
+    | some s => some ([.wire s], { c with pending := none })
+    | none => none
+  | .abandon =>
+    match c.pending with
+    | some _ => some ([], { c with pending := none })
+    | none => none
+
+def run2 : Conn2 → List Op2 → Option (List Ev × Conn2)
+  | c, [] => some ([], c)
+  | c, op :: ops =>
+    match step2 c op with
+    | none => none
+    | some (es, c') =>
+      match run2 c' ops with
+      | none => none
+      | some (es', c'') => some (es ++ es', c'')
+
+/-- the serials handed to the caller, in order -/
+def issuedOf : List Ev → List Issued
+  | [] => []
+  | .issued i :: es => i :: issuedOf es
+  | .wire _ :: es => issuedOf es
+
 /-- the part of a header the reply constructors look at / set -/
 structure Hdr where
   serial : Option Nat
